@@ -176,11 +176,12 @@ func (b *builder) variant(base gen.MsgSpec) (gen.MsgSpec, string) {
 
 // C19: paired connections carry metamorphic variants of one request.
 func (b *builder) buildC19() {
+	b.g.Strict = true
 	method := ""
 	if b.r.Chance(1, 2) {
 		method = b.r.Pick([]string{"INVITE", "INVITE", "REGISTER", "OPTIONS", "BYE", "SUBSCRIBE"})
 	}
-	o := gen.MsgOpts{Request: 1, CL: gen.CLExact, BodyMax: 80, MaxHdrs: b.r.PickInt(0, 0, 6, 12), ForceMethod: method}
+	o := gen.MsgOpts{Request: 1, CL: gen.CLExact, BodyMax: 80, MaxHdrs: b.r.PickInt(0, 0, 6, 12), ForceMethod: method, ValidStatus: true}
 	if b.r.Chance(1, 12) {
 		o.Request = 0 // replies: no signature
 	}
